@@ -87,6 +87,9 @@ def angle_units(tier, seed):
         out.append((n + 'deg', v * 180 / PI, 'deg'))
     for d in (0, 90, -90, 180, -180, 270, 360, 45, 90 + 1e-10, 180 - 1e-10, 3600 + 30):
         out.append(('%gd' % d, float(d), 'deg'))
+    # a thousand turns, in either unit
+    out.append(('1000turns+30d', 360030.0, 'deg'))
+    out.append(('-1000turns-0.5', -(2000 * PI + 0.5), 'rad'))
     return out
 
 
@@ -120,12 +123,13 @@ def oa_pairs(tier, seed):
     bases = [('xy', np.array([0, 1.0, 0]), np.array([0, 0, 1.0])), ('g', alph.unit((1, 2, 3)), alph.unit(np.cross((1, 2, 3), (0.3, -1, 2))))]
     if tier != 'quick':
         bases.append(('g2', alph.unit((-2, 1, 0.5)), alph.unit(np.cross((-2, 1, 0.5), (1, 1, 1)))))
-    angs = [('90d', PI / 2), ('45d', PI / 4), ('1d', PI / 180), ('179d', PI * 179 / 180), ('1e-3', 1e-3), ('1e-6', 1e-6)]
+    angs = [('90d', PI / 2), ('45d', PI / 4), ('1d', PI / 180), ('179d', PI * 179 / 180), ('1e-3', 1e-3), ('1e-6', 1e-6), ('1e-7', 1e-7), ('1e-8', 1e-8), ('1e-9', 1e-9),
+            ('pi-1e-8', PI - 1e-8)]
     for bn, u, w in bases:
         for an, ang in angs:
             o = math.cos(ang) * w + math.sin(ang) * u      # o at angle ang from a = w
             for (ln, lo), (mn, la) in itertools.product(LENGTHS, LENGTHS):
-                if an == '1e-6' and (lo < 1 or la < 1):
+                if an in ('1e-6', '1e-7', '1e-8', '1e-9', 'pi-1e-8') and (lo < 1 or la < 1):
                     continue
                 out.append(('%s/%s/|o|=%s/|a|=%s' % (bn, an, ln, mn), o * lo, w * la, {'oa_angle': an, 'olen': ln, 'alen': mn}))
     return out
